@@ -10,9 +10,9 @@ KIT = {'engine': 'cbmc-seq', 'shims': ['moodycamel'], 'models': ['aligned_alloc'
        'allow_externals': ['_ZN8dispenso6detail27registerFineSchedulerQuantaEv'],
        'cflags': ['-DDISPENSO_TUNE_STEAL_RING_SHARING=1', '-DDISPENSO_TUNE_FIXED_SPIN_ITERS=2',
                   '-DDISPENSO_TUNE_SPIN_CHECK_INTERVAL=1', '-DDISPENSO_TUNE_QUEUE_CHECK_INTERVAL=1'],
-       'no_inline': ['_ZL5buildv'],
+       'no_inline': ['_ZL5buildv'], 'unwind_fn': {'_ZL5buildv': 17},
        'unwindset': {'_ZN8dispenso21ConcurrentObjectArenaINS_14MpmcRingBufferINS_12OnceFunctionELm16ELb1EEEmLm64EE7grow_byEm.4': 17, '_ZN8dispenso21ConcurrentObjectArenaINS_14MpmcRingBufferINS_12OnceFunctionELm4ELb1EEEmLm64EE7grow_byEm.4': 5},
-       'spin_loops': True, 'unwind': 3, 'timeout': 1500}
+       'spin_loops': True, 'unwind': 3, 'timeout': 900}
 INSTANCES = [
     dict(KIT, name='destroy_wake_n1', src='shutdown.cpp', defs={'VF_N': 1, 'VF_WAKE': 1, 'VF_TASKS': 0}, nthreads=2, steps=4,
          bounds='pool of 1 worker (signalling wake), destructor at an arbitrary point of the worker loop; 4 rounds'),
